@@ -169,7 +169,7 @@ _R9 = {
     "C11": "Round 9: every datagram accepted by send_datagram must appear on the wire while the connection is up.",
     "C12": "Round 9: 400 000 (quick) single-poll-versus-grant races on two free-running threads released together, judged by the exact final-state oracle (reaches the window between the writer's load and its compare-exchange, where no hook lies); the writer's waker is a scheduling point of the thread that invokes it (a wake-up is the moment another worker may poll the task), so orders in which the woken writer runs before the waking thread's next statement are enumerated; the free-running stress reports a poll that burns seconds of its thread's CPU time without returning.",
     "C13": "Round 9: local sides with several hundred KiB ready in one poll; the far application also performs zero-length writes.",
-    "C14": "Round 9: a server whose pre-shared key is the empty string; wrong keys made of arbitrary octets (multi-byte characters at every offset, lone high bytes) - a refusal must stay indistinguishable and must be answered at all.",
+    "C14": "Round 9: a server whose pre-shared key is the empty string; wrong keys made of arbitrary octets (multi-byte characters at every offset, lone high bytes) - a refusal must stay indistinguishable and must be answered at all. Header values with non-ASCII octets (the valid value followed by U+00A0, look-alike letters) are part of the deviation grid.",
     "C15": "Round 9: a request abandoned by its caller before the answer, followed by a request to which the generator offers the abandoned id; requests crossing with the same id from both sides; a request under an id the responder still uses for a stream of its own.",
     "C16": "Round 9: a live peer behind a slow link while the application keeps the outbound queue busy (it must see about one Ping per interval and is never timed out); a peer that dies behind a sink that is blocked from then on (nothing can be sent, flushed or closed): the time-out bounds and the release of pending operations still apply; job client: the real client with I and T in its arguments, its Ping cadence, its reconnect after a peer went silent and the disabled cases observed at a gate that timestamps relayed Pings and Pongs.",
     "C17": "Round 9: bytes that are no TLS handshake followed by a plaintext request on the same socket must not be served; certificate files holding leaf + intermediate CA are verified against the root only (server's and client's certificate); the configuration matrix is executed again for P-384, Ed25519, P-521 and RSA-2048 keys (whatever the provider can generate).",
@@ -177,7 +177,7 @@ _R9 = {
     "C07": "Round 9: a stream request dropped while its Connect is unanswered and then acknowledged by the peer (the peer must learn that nobody holds the stream); Connects with id 0 / an id in use while the accept queue is exactly full (also run by C10 and C15).",
     "C10": "Round 9: runs C07's raw-peer case of offending Connects, also with the application's accept queue exactly full.",
     "C05": "Round 9: a first shutdown() called after the peer's Reset was delivered puts no Finish on the wire; delivered payload is read before end-of-stream.",
-    "C19": "Round 9: the server also answers the upgrade request with complete 200 / 301 / 503 responses (final, like 404).",
+    "C19": "Round 9: the server also answers the upgrade request with complete 200 / 301 / 503 responses (final, like 404). A scenario with the handshake time-out disabled decides which of the client's two time-outs guards a re-issued request.",
     "C20": "Round 9: the Buf view of CowBytes (copy_to_bytes, get_u8, copy_to_slice, take) on both variants; chains are also read through one multi-segment advance, copy_to_bytes and chunks_vectored.",
     "C02": "Round 9: now and then one write of 1 MiB .. 5 MB (plain or vectored).",
 }
